@@ -396,6 +396,7 @@ func (st *runState) finishWith(ri *simcheck.RunInfo, sim *simrt.Sim, sys *System
 	okRows := map[string][]loc{}     // tag -> successful occurrences
 	okVals := map[float64][]loc{}    // metric value -> successful occurrences
 	okAttr := map[string][]loc{}     // span tag -> successful tag-index rows (key "name")
+	sentNotOk := map[string]int{}    // tag -> occurrences in sample blocks that did not succeed
 	seriesAt := map[string][]int64{} // "fp|type|date" -> EndEv of successful series blocks
 	fpLabels := map[uint64]map[string]bool{}
 	labelFp := map[string]map[uint64]bool{}
@@ -412,6 +413,15 @@ func (st *runState) finishWith(ri *simcheck.RunInfo, sim *simrt.Sim, sys *System
 		switch {
 		case strings.HasPrefix(blk.Table, "samples_v3"):
 			st.checkSampleBlock(blk, add)
+			if !(blk.Finished && blk.Err == nil) {
+				// rows that were sent in a block that did not succeed (failed, or still in flight at the end)
+				str := blk.Col("string")
+				for i := 0; str != nil && i < blk.Rows && i < len(str.Vals); i++ {
+					if tag := tagOf(fmt.Sprint(str.Vals[i])); tag != "" {
+						sentNotOk[tag]++
+					}
+				}
+			}
 			if blk.Finished && blk.Err == nil {
 				str, val := blk.Col("string"), blk.Col("value")
 				for i := 0; i < blk.Rows; i++ {
@@ -588,7 +598,7 @@ func (st *runState) finishWith(ri *simcheck.RunInfo, sim *simrt.Sim, sys *System
 			continue
 		}
 		// C01: every row in a successful block that ended before the status was written
-		missing, late, dup := 0, 0, 0
+		missing, late, dup, elsewhere := 0, 0, 0, 0
 		var firstMissing *ExpRow
 		for _, x := range r.Wire.Rows {
 			var ls []loc
@@ -619,6 +629,9 @@ func (st *runState) finishWith(ri *simcheck.RunInfo, sim *simrt.Sim, sys *System
 			}
 			if len(ls) == 0 {
 				missing++
+				if x.Tag != "" && sentNotOk[x.Tag] > 0 {
+					elsewhere++
+				}
 				if firstMissing == nil {
 					firstMissing = x
 				}
@@ -636,6 +649,13 @@ func (st *runState) finishWith(ri *simcheck.RunInfo, sim *simrt.Sim, sys *System
 			add("C01", "ack-without-successful-insert", fmt.Sprintf("%s push acknowledged %d but rows were in no successful INSERT before the answer", r.Op.Proto, r.Status),
 				fmt.Sprintf("req%d (%s) got %d; %d of %d rows are in no successful INSERT at all, %d only in INSERTs that completed after the status was written; first: %+v; blocks: %s",
 					r.ID, r.Op.Proto, r.Status, missing, len(r.Wire.Rows), late, firstMissing, st.blockSummary(20)))
+		}
+		if elsewhere > 0 {
+			// C02, last clause: the request was told "success" - the outcome of some other block - while its rows went
+			// out only in blocks that did not succeed
+			add("C02", "reported-outcome-of-another-block", fmt.Sprintf("%s push was told success although its rows were only in INSERTs that failed", r.Op.Proto),
+				fmt.Sprintf("req%d (%s) got %d; %d of its %d rows were sent only in blocks that failed or never finished, none in a successful one; first: %+v; blocks: %s",
+					r.ID, r.Op.Proto, r.Status, elsewhere, len(r.Wire.Rows), firstMissing, st.blockSummary(20)))
 		}
 		// C03: exactly one faithful row per entry in the successful blocks
 		if missing > 0 {
